@@ -299,3 +299,94 @@ theorem C13_timeline_writers :
   seqWriters_outside_mixer
 
 end Xmp.Downmix
+
+/-! ## `xmp_set_tempo_factor`: acceptance may depend on the sampling rate, never on the sample format -/
+namespace Xmp.C13Timeline
+open Xmp.Gen.MixerConsts
+open Xmp.Downmix (Fmt prepareTicksize)
+
+/-- **C13_tempo_factor_format_independent**: two contexts with the same sampling rate — whatever their
+sample formats (mono/stereo, 8/16 bit, signedness), interpolators, amplification, separation, volume, DSP
+settings — give the same answer to `xmp_set_tempo_factor` and are left with the same sequencer-side state
+(`time_factor`), for every argument and every state.  The acceptance predicate is "the tick size in frames
+`libxmp_mixer_get_ticksize(rate, 10·val, rrate, bpm)` is within `0 … XMP_MAX_FRAMESIZE / 4`" (`tempo_factor_shape`
+ties the bound and the arguments to the code on every run; the real calls of 8 same-rate contexts in all the
+formats are compared with this model by the check). -/
+theorem C13_tempo_factor_format_independent (c c' : OutCfg) (h : c.rate = c'.rate) (s : SeqSide) (v : Val) :
+    setTempoFactor c s v = setTempoFactor c' s v := by
+  unfold setTempoFactor
+  rw [h]
+
+/-- in particular for any two formats at one rate -/
+theorem C13_tempo_factor_any_format (rate : Int) (f g : Fmt) (s : SeqSide) (v : Val) :
+    setTempoFactor { rate := rate, fmt := f } s v = setTempoFactor { rate := rate, fmt := g } s v :=
+  C13_tempo_factor_format_independent _ _ rfl s v
+
+/-- a refused call changes nothing; an accepted one changes `time_factor` only -/
+theorem C13_tempo_factor_refusal_keeps_state (c : OutCfg) (s : SeqSide) (v : Val) :
+    ((setTempoFactor c s v).1 ≠ 0 → (setTempoFactor c s v).2 = s) ∧
+    (setTempoFactor c s v).2.playing = s.playing ∧ (setTempoFactor c s v).2.bpm = s.bpm ∧
+    (setTempoFactor c s v).2.rrate = s.rrate := by
+  unfold setTempoFactor
+  split
+  · exact ⟨fun _ => rfl, rfl, rfl, rfl⟩
+  · cases v with
+    | bad => exact ⟨fun _ => rfl, rfl, rfl, rfl⟩
+    | inf => exact ⟨fun _ => rfl, rfl, rfl, rfl⟩
+    | pos d =>
+      simp only
+      split
+      · exact ⟨fun _ => rfl, rfl, rfl, rfl⟩
+      · split
+        · exact ⟨fun _ => rfl, rfl, rfl, rfl⟩
+        · exact ⟨fun h => absurd rfl h, rfl, rfl, rfl⟩
+
+/-- **An accepted factor fits every format**: after an accepted call the tick computed from the new
+`time_factor` passes the guard of `libxmp_mixer_prepare` unchanged, so by `C13_buffer_layout` the frame fits the
+buffers in all 8 formats — the bound has to be the one of the largest format (16-bit stereo) for all of them. -/
+theorem C13_tempo_factor_accept_fits (c : OutCfg) (s : SeqSide) (v : Val) (h : (setTempoFactor c s v).1 = 0) :
+    let t := getTicksize c.rate (setTempoFactor c s v).2.timeFactor s.rrate s.bpm
+    2 ^ anticlickShift ≤ t ∧ t ≤ (ticksizeCap : Int) ∧ (prepareTicksize t : Int) = t := by
+  unfold setTempoFactor at h ⊢
+  split at h
+  · simp [errorState] at h
+  · rename_i hp
+    simp only [hp, if_false]
+    cases v with
+    | bad => simp at h
+    | inf => simp at h
+    | pos d =>
+      simp only at h ⊢
+      split at h
+      · simp at h
+      · rename_i hd
+        simp only [hd, if_false]
+        split at h
+        · simp at h
+        · rename_i ht
+          simp only [ht, if_false]
+          have hr := getTicksize_range c.rate (d.mul (D.ofNat (tempoFactorScale.getD 10).toNat)) s.rrate s.bpm
+          generalize getTicksize c.rate (d.mul (D.ofNat (tempoFactorScale.getD 10).toNat)) s.rrate s.bpm = t at ht hr
+          have h8 : (2 : Int) ^ anticlickShift = 8 := by decide
+          rw [h8] at hr ⊢
+          refine ⟨by omega, by omega, ?_⟩
+          unfold prepareTicksize
+          have : ¬ (t < 0 ∨ t > (ticksizeCap : Nat)) := by omega
+          simp only [this, if_false]
+          omega
+
+set_option maxRecDepth 100000 in
+/-- non-trivial instances at 44100 Hz, 125 BPM, rrate 250: factor 8 gives a tick of 7056 frames and is refused,
+factor 6.875 (tick 6063) is accepted — in 16-bit stereo and in 8-bit mono alike; at 8000 Hz factor 8 is accepted
+(the rate may matter, the format may not) -/
+example :
+    let s : SeqSide := { playing := true, bpm := 125, rrate := ⟨250, 0⟩, timeFactor := ⟨10, 0⟩ }
+    (setTempoFactor { rate := 44100, fmt := ⟨false, false, false⟩ } s (.pos ⟨8, 0⟩)).1 = -1 ∧
+    (setTempoFactor { rate := 44100, fmt := ⟨true, true, true⟩ } s (.pos ⟨8, 0⟩)).1 = -1 ∧
+    (setTempoFactor { rate := 44100, fmt := ⟨false, false, false⟩ } s (.pos ⟨55, -3⟩)).1 = 0 ∧
+    getTicksize 44100 ⟨80, 0⟩ ⟨250, 0⟩ 125 = 7056 ∧
+    (setTempoFactor { rate := 8000, fmt := ⟨true, false, true⟩ } s (.pos ⟨8, 0⟩)).1 = 0 ∧
+    (setTempoFactor { rate := 8000, fmt := ⟨true, false, true⟩ } { s with playing := false } (.pos ⟨8, 0⟩)).1 = -8 := by
+  decide
+
+end Xmp.C13Timeline
